@@ -137,7 +137,9 @@ func mapSSHL[A p2p.Addr](w *World, t tier[A]) tier[sshswarm.Addr] {
 
 // AddrStacks: the catalogue plus stacks whose addresses have the UDP and SSH forms.
 var AddrStacks = append(append([]string{}, Catalogue...),
-	"mapudp/sim", "mapssh/sim", "p2pke/mapudp/sim", "frag/p2pke/mapudp/sim", "mux-string/p2pke/mapudp/sim", "mapudp/frag/mem", "multi/mem+mapudp/sim", "multi/mapssh/mem+p2pke/mapudp/sim")
+	"mapudp/sim", "mapssh/sim", "p2pke/mapudp/sim", "frag/p2pke/mapudp/sim", "mux-string/p2pke/mapudp/sim", "mapudp/frag/mem", "multi/mem+mapudp/sim", "multi/mapssh/mem+p2pke/mapudp/sim",
+	// identity@identity@transport: the layer beneath a P2PKE swarm has an '@' of its own
+	"p2pke/mapssh/sim", "p2pke/p2pke/sim", "frag/p2pke/mapssh/sim", "multi/mem+p2pke/mapssh/sim")
 
 func (w *World) buildAddrStack(spec string) []Endpoint {
 	prev := runtime.GOMAXPROCS(w.P.Workers)
@@ -149,6 +151,15 @@ func (w *World) buildAddrStack(spec string) []Endpoint {
 		return above(w, []string{"frag"}, p2pkeL(w, mapUDPL(w, w.baseSim())))
 	case "mux-string/p2pke/mapudp/sim":
 		return above(w, []string{"mux-string"}, p2pkeL(w, mapUDPL(w, w.baseSim())))
+	case "p2pke/mapssh/sim":
+		return above(w, nil, p2pkeL(w, mapSSHL(w, w.baseSim())))
+	case "frag/p2pke/mapssh/sim":
+		return above(w, []string{"frag"}, p2pkeL(w, mapSSHL(w, w.baseSim())))
+	case "p2pke/p2pke/sim":
+		return above(w, nil, p2pkeL(w, p2pkeL(w, w.baseSim())))
+	case "multi/mem+p2pke/mapssh/sim":
+		mt := multiL(w, w.baseMem(), p2pkeL(w, mapSSHL(w, w.baseSim())))
+		return cluster(mt.sw, mt.ask)
 	case "multi/mem+mapudp/sim":
 		mt := multiL(w, w.baseMem(), mapUDPL(w, w.baseSim()))
 		return cluster(mt.sw, mt.ask)
